@@ -32,7 +32,8 @@ theorem follows_of_B (S : Schema) (a b : TypeId) (h : S.followsB a b = true) : F
 theorem stableKids_cons2 (S : Schema) (a b : Node) (rest : List Node) (h : S.stableKids (a :: b :: rest) = true) :
     Follows S (S.tyOf a) (S.tyOf b) ∧ (a.isLeaf = true ∨ b.isLeaf = false) ∧ S.stableNode a = true ∧
       S.stableKids (b :: rest) = true := by
-  simp only [Schema.stableKids, Bool.and_eq_true, Bool.or_eq_true, Bool.not_eq_true'] at h
+  rw [Schema.stableKids] at h
+  simp only [Bool.and_eq_true, Bool.or_eq_true, Bool.not_eq_true'] at h
   exact ⟨follows_of_B S _ _ h.1.1.1, h.1.1.2, h.1.2, h.2⟩
 
 theorem stableKids_head (S : Schema) (a : Node) (rest : List Node) (h : S.stableKids (a :: rest) = true) :
